@@ -171,7 +171,9 @@ func (e *kvElection) handleWatchEvent(entry Entry) {
 					zap.Uint64("revision", entry.Revision()),
 				)...,
 			)
-			e.becomeFollower()
+			if e.becomeFollower() {
+				e.notifyDemoted("preempted")
+			}
 		}
 		return
 	}
